@@ -9,7 +9,10 @@ use std::net::{SocketAddr, TcpStream};
 #[cfg(humphrey_verif)]
 use humsim::net::{SocketAddr, TcpStream};
 use std::time::Duration;
+#[cfg(not(humphrey_verif))]
 use std::time::Instant;
+#[cfg(humphrey_verif)]
+use humsim::time::Instant;
 
 /// Proxies a request to the given target, timing out and returning an error 502 after `timeout`.
 /// Always returns a response.
